@@ -308,13 +308,16 @@ ConnectUp(nc, k, P, cont) ==
        IN ConnectUp(nc, k + 1, ConnectSeqOutcomes(cont[nc[k + 1]], P, CV(ch1, cont)), cont)
 
 \* a set of transactions that forms a valid block body on top of ch
-ValidBody(S, ch, cont) ==
+BodyOK(S, ch, cont) ==
   LET utxo == Utxo(ch, cont) IN
   /\ S \cap Confirmed(ch, cont) = {}
-  /\ \A t \in S : /\ TxCls[t] = "ok" /\ ~TxWit[t]
+  /\ \A t \in S : /\ TxCls[t] = "ok"
                   /\ \A c \in TxIns[t] : \/ c \in utxo /\ Mature(c, Len(ch) + 1)
                                          \/ Src(c) \in S
   /\ \A t, u \in S : t # u => TxIns[t] \cap TxIns[u] = {}
+
+\* the bodies of the blocks mined here carry no witness data (their coinbase is fixed in advance)
+ValidBody(S, ch, cont) == BodyOK(S, ch, cont) /\ \A t \in S : ~TxWit[t]
 
 \* pooled transactions with an input that exists neither in the chain nor in the pool
 Unavailable(ps, ch, cont) ==
@@ -459,30 +462,30 @@ Spec == Init /\ [][Next]_vars
 -----------------------------------------------------------------------------
 (* Property layer                                                          *)
 
-P == DOMAIN pool
+Pooled == DOMAIN pool
 
 TypeOK ==
-  /\ P \subseteq Txs /\ orph \subseteq Txs /\ stale \subseteq P
+  /\ Pooled \subseteq Txs /\ orph \subseteq Txs /\ stale \subseteq Pooled
   /\ \A c \in DOMAIN sb : sb[c] \in Txs
   /\ \A c \in DOMAIN obp : obp[c] # {} /\ obp[c] \subseteq Txs
   /\ penny >= 0 /\ used \subseteq Slots /\ Range(chain) \subseteq used
 
 \* no two pooled transactions spend the same output
-NoConflict == \A t, u \in P : t # u => TxIns[t] \cap TxIns[u] = {}
+NoConflict == \A t, u \in Pooled : t # u => TxIns[t] \cap TxIns[u] = {}
 
 \* every pooled input is unspent in the chain or created by a pooled transaction
 InputsAvailable == Unavailable(PS, chain, content) \subseteq stale
 
 \* the spender index is exactly the inverse of the pooled inputs
 IndexAgrees ==
-  /\ DOMAIN sb = UNION {TxIns[t] : t \in P}
-  /\ \A c \in DOMAIN sb : sb[c] \in P /\ c \in TxIns[sb[c]]
+  /\ DOMAIN sb = UNION {TxIns[t] : t \in Pooled}
+  /\ \A c \in DOMAIN sb : sb[c] \in Pooled /\ c \in TxIns[sb[c]]
 
 \* the orphan index is exactly the inverse of the orphans' inputs; orphans are not pooled
 OrphanIndexAgrees ==
   /\ DOMAIN obp = UNION {TxIns[t] : t \in orph}
   /\ \A c \in DOMAIN obp : obp[c] = {t \in orph : c \in TxIns[t]}
-  /\ orph \cap P = {}
+  /\ orph \cap Pooled = {}
 
 OrphanBounds ==
   /\ Cardinality(orph) <= (IF MaxOrphans > 0 THEN MaxOrphans ELSE 0)
@@ -490,11 +493,11 @@ OrphanBounds ==
 
 \* the pooled set in dependency (id) order is a valid body for the next block,
 \* as long as the height did not move backwards since admission
-HeightGuard == \A t \in P : pool[t] <= Len(chain)
-Minable == (stale = {} /\ HeightGuard) => ValidBody(P, chain, content)
+HeightGuard == \A t \in Pooled : pool[t] <= Len(chain)
+Minable == (stale = {} /\ HeightGuard) => BodyOK(Pooled, chain, content)
 
 \* nothing pooled is already confirmed
-NotConfirmed == stale = {} => P \cap Confirmed(chain, content) = {}
+NotConfirmed == stale = {} => Pooled \cap Confirmed(chain, content) = {}
 
 Inv == TypeOK /\ NoConflict /\ InputsAvailable /\ IndexAgrees /\ OrphanIndexAgrees
        /\ OrphanBounds /\ Minable /\ NotConfirmed
